@@ -448,7 +448,9 @@ class Index:
         mod, q = key.split("::")
         m = self.module(mod)
         if q not in m.functions:
-            raise AnalysisError("anchor function %s vanished" % key)
+            e = AnalysisError("anchor function %s vanished" % key)
+            e.fatal = True
+            raise e
         return m.functions[q]
 
     def maybe_func(self, key):
